@@ -173,11 +173,16 @@ func c17stat(r *vlib.Rand) (os.FileMode, time.Time, string) {
 }
 
 func verifC17run(c *vlib.Ctx) {
-	c.Rule("histories of 5-40 add/replace/remove on a BasicDirectory in block-estimation mode: names 0..300 B (dense around the 1->2 byte link-length varint boundary), CIDv0 and CIDv1 with 5 codecs x 5 hash functions x digest 0..64 B, Tsize at every varint length boundary up to 2^63-1, mode {unset, 0..07777, with type bits, type bits only} x mtime {unset, neg/0/pos seconds at varint boundaries} x nanos {0,1,..,999999999}; strata: fresh (NewBasicDirectory), fromnode (reload with NewBasicDirectoryFromNode mid-history), setmode (created in links/disabled mode, switched with SetSizeEstimationMode), dynamic (DynamicDirectory with small threshold: basic phases incl. after HAMT->Basic); after every op estimatedSize vs len(GetNode().RawData()); distinct = FNV of config+ops; non-trivial = history holds a replacement that changes the link's encoded size and a removal of a present name, and >=10 comparisons were made")
+	c.Rule("histories of 5-40 add/replace/remove on a BasicDirectory in block-estimation mode: names 0..300 B (dense around the 1->2 byte link-length varint boundary), CIDv0 and CIDv1 with 5 codecs x 5 hash functions x digest 0..64 B, Tsize at every varint length boundary up to 2^63-1, mode {unset, 0..07777, with type bits, type bits only} x mtime {unset, neg/0/pos seconds at varint boundaries} x nanos {0,1,..,999999999}; strata: fresh (NewBasicDirectory), fromnode (reload with NewBasicDirectoryFromNode mid-history), setmode (created in links/disabled mode, switched with SetSizeEstimationMode), dynamic (DynamicDirectory with small threshold: basic phases incl. after HAMT->Basic); after every op estimatedSize vs len(GetNode().RawData()); stratum decision: DynamicDirectory in block mode whose threshold is placed within +-8 bytes of the exact block size after a planned add/replacement (replacements cross Tsize/CID/varint length classes), oracle after every op: still basic => serialized block <= threshold, switched to HAMT on this op => the basic block of the model entries (assembled with the plain dag-pb encoder) > threshold; distinct = FNV of config+ops; non-trivial = history holds a replacement that changes the link's encoded size and a removal of a present name, and >=10 comparisons were made (decision stratum: a replacement across Tsize varint classes was judged with the resulting block within 8 bytes of the threshold)")
 	c.Cases("fresh", c.N(1200, 40000), func(k *vlib.Case) { c17history(k, "fresh") })
 	c.Cases("fromnode", c.N(700, 25000), func(k *vlib.Case) { c17history(k, "fromnode") })
 	c.Cases("setmode", c.N(400, 10000), func(k *vlib.Case) { c17history(k, "setmode") })
 	c.Cases("dynamic", c.N(700, 25000), func(k *vlib.Case) { c17history(k, "dynamic") })
+	// decision: the size used AT DECISION TIME (not only the running counter):
+	// DynamicDirectory in block mode, threshold within a few bytes of the exact
+	// block size reached by a planned operation; judged are only basic->HAMT
+	// decisions and "stays basic" states (the history ends at the first HAMT).
+	c.Cases("decision", c.N(900, 30000), c17decision)
 }
 
 type c17entry struct {
@@ -389,4 +394,203 @@ func c17short(n string) string {
 		return "=" + n[:8] + "…"
 	}
 	return "=" + strings.ToValidUTF8(n, "?")
+}
+
+// ---------------------------------------------------------------- decision stratum
+
+type c17dop struct {
+	remove bool
+	name   string
+	c      cid.Cid
+	cdesc  string
+	ts     uint64
+}
+
+func c17varintLen(v uint64) int {
+	n := 1
+	for v >= 0x80 {
+		v >>= 7
+		n++
+	}
+	return n
+}
+
+// c17modelBlock assembles the basic directory block of the model entries with
+// the plain dag-pb encoder (no unixfs/io code involved).
+func c17modelBlock(fmode os.FileMode, mtime time.Time, model map[string]c17entry) int {
+	var nd *mdag.ProtoNode
+	if fmode > 0 || !mtime.IsZero() {
+		nd = format.EmptyDirNodeWithStat(fmode, mtime)
+	} else {
+		nd = format.EmptyDirNode()
+	}
+	for n, e := range model {
+		if err := nd.AddRawLink(n, &ipld.Link{Cid: e.c, Size: e.sz}); err != nil {
+			panic(err)
+		}
+	}
+	return len(nd.RawData())
+}
+
+func c17decision(k *vlib.Case) {
+	r := k.R
+	ctx := context.Background()
+	ds := &c17dag{m: map[string]ipld.Node{}}
+	fmode, mtime, sdesc := c17stat(r)
+
+	// name pool: mostly short names so that few bytes matter, some long
+	var pool []string
+	for len(pool) < r.Range(3, 8) {
+		n := c17name(r)
+		if n == "" || len(n) > 140 {
+			n = string(rune('a' + len(pool)))
+		}
+		if r.Chance(2, 3) && len(n) > 3 {
+			n = n[:r.Range(1, 3)]
+		}
+		dup := false
+		for _, p := range pool {
+			dup = dup || p == n
+		}
+		if !dup {
+			pool = append(pool, n)
+		}
+	}
+
+	// plan the operations and the exact block size after each of them
+	nops := r.Range(6, 30)
+	var ops []c17dop
+	var sizes []int     // model block size after op i
+	var crossCls []bool // op i is a replacement whose old and new Tsize have different varint lengths
+	model := map[string]c17entry{}
+	for len(ops) < nops {
+		name := vlib.Pick(r, pool)
+		old, present := model[name]
+		var o c17dop
+		switch {
+		case present && r.Chance(1, 6):
+			o = c17dop{remove: true, name: name}
+			delete(model, name)
+			crossCls = append(crossCls, false)
+		default:
+			c, cdesc := c17cid(r)
+			if present && r.Chance(1, 2) {
+				c, cdesc = old.c, "same-cid" // isolate the Tsize contribution
+			}
+			ts := c17tsize(r)
+			if present && r.Chance(2, 3) {
+				for try := 0; try < 20 && c17varintLen(ts) == c17varintLen(old.sz); try++ {
+					ts = c17tsize(r)
+				}
+			}
+			o = c17dop{name: name, c: c, cdesc: cdesc, ts: ts}
+			crossCls = append(crossCls, present && c17varintLen(ts) != c17varintLen(old.sz))
+			model[name] = c17entry{c, ts}
+		}
+		ops = append(ops, o)
+		sizes = append(sizes, c17modelBlock(fmode, mtime, model))
+	}
+	// target: preferably a class-crossing replacement (not among the first ops)
+	target := -1
+	var cands []int
+	for i := range ops {
+		if crossCls[i] && i >= 2 {
+			cands = append(cands, i)
+		}
+	}
+	if len(cands) > 0 && r.Chance(5, 6) {
+		target = vlib.Pick(r, cands)
+	} else {
+		target = r.Intn(len(ops))
+	}
+	delta := r.Range(-3, 3)
+	if r.Chance(1, 3) {
+		delta = r.Range(-8, 8)
+	}
+	thresh := sizes[target] + delta
+	if lo := c17modelBlock(fmode, mtime, nil); thresh < lo {
+		thresh = lo // an empty directory is never evaluated
+	}
+	perDir := r.Bool()
+	k.Logf("config stratum=decision %s threshold=%d (= block size after op #%d %+d) perDir=%v", sdesc, thresh, target, thresh-sizes[target], perDir)
+
+	oldT := HAMTShardingSize
+	defer func() { HAMTShardingSize = oldT }()
+	opts := []DirectoryOption{WithSizeEstimationMode(SizeEstimationBlock), WithMaxHAMTFanout(vlib.Pick(r, []int{8, 256}))}
+	if fmode != 0 || !mtime.IsZero() {
+		opts = append(opts, WithStat(fmode, mtime))
+	}
+	if !perDir {
+		HAMTShardingSize = thresh
+	}
+	dir, err := NewDirectory(ds, opts...)
+	if err != nil {
+		k.Fail("construct-error", "constructor succeeds", "nil", err.Error())
+		return
+	}
+	if perDir {
+		dir.SetHAMTShardingSize(thresh)
+	}
+
+	model = map[string]c17entry{}
+	judged, nontriv := 0, false
+	for i, o := range ops {
+		old, present := model[o.name]
+		kind := "add"
+		if o.remove {
+			kind = "remove"
+			k.Logf("#%d RemoveChild %q", i, o.name)
+			err = dir.RemoveChild(ctx, o.name)
+			delete(model, o.name)
+		} else {
+			if present {
+				kind = "replace"
+				if c17varintLen(old.sz) != c17varintLen(o.ts) {
+					kind = "replace-tsize-class"
+				}
+			}
+			k.Logf("#%d AddChild %q cid=%s(%dB) tsize=%d (%s; old tsize=%d) -> model block %d", i, o.name, o.cdesc, len(o.c.Bytes()), o.ts, kind, old.sz, sizes[i])
+			err = dir.AddChild(ctx, o.name, &c17node{c: o.c, sz: o.ts})
+			model[o.name] = c17entry{o.c, o.ts}
+		}
+		if err != nil {
+			k.Fail("decision/op-error/"+kind, "operation succeeds", "nil", err.Error())
+			return
+		}
+		want := sizes[i] // exact block of the model entries, plain encoder
+		judged++
+		if kind == "replace-tsize-class" && want-thresh <= 8 && thresh-want <= 8 {
+			nontriv = true
+		}
+		b := c17basic(dir)
+		if b == nil {
+			// switched on this operation: the basic block that would have resulted must be above the threshold
+			if want <= thresh {
+				k.Fail("decision/sharded-at-or-below-threshold/"+kind, "basic->HAMT only when the exact block size exceeds the threshold",
+					fmt.Sprintf("stay basic: block %d <= threshold %d", want, thresh), fmt.Sprintf("switched to HAMT at op #%d", i))
+			}
+			break // later HAMT->basic decisions are C16's business
+		}
+		nd, err := dir.GetNode()
+		if err != nil {
+			k.Fail("getnode-error", "GetNode succeeds", "nil", err.Error())
+			return
+		}
+		actual := len(nd.RawData())
+		if actual != want {
+			k.Fail("decision/block-differs-from-model/"+kind, "serialized basic block == block of the model entries", fmt.Sprint(want), fmt.Sprint(actual))
+			return
+		}
+		if actual > thresh {
+			k.Fail("decision/stays-basic-above-threshold/"+kind, "a basic directory's block never exceeds the threshold after an operation",
+				fmt.Sprintf("HAMT: block %d > threshold %d", actual, thresh), fmt.Sprintf("still basic after op #%d (estimatedSize=%d)", i, b.estimatedSize))
+		}
+		if b.estimatedSize != actual {
+			k.Fail("estimate-mismatch/decision-"+kind, "estimatedSize == len(GetNode().RawData())", fmt.Sprint(actual), fmt.Sprint(b.estimatedSize))
+		}
+	}
+	k.C.Count("decisions_judged", int64(judged))
+	if nontriv {
+		k.Nontrivial()
+	}
 }
